@@ -7,6 +7,27 @@ V = "/verif"
 PY = "/venv/bin/python"
 
 CHECKS = {
+ "C09": dict(cat="model_checking", technique="TLA+ Validator cache/contract model (spec/Validator.tla) model-checked incl. a negative config; TLC-emitted probe and schema tables and call histories replayed into Validator / module API / CLI export",
+   text="TLC checks CacheSound and HistoryIndependent on all call histories of <=3 (thorough 4) calls and must reject the config whose cache key lacks the version. It prints the expected verdict for every annotated schema entry (106: keywords, oneOf/anyOf alternatives, objects) x {no version, min-0.1, min, max, max+0.1} x every root->type context, the expected content of get_versioned_schema for 20 schema names x 29 versions, and simulated plus exhaustive two-call histories; the real Validator.validate / get_versioned_schema / create / mappyfile.validate / CLI export are compared row by row and after every call; unannotated faults must be judged identically with and without a version.",
+   note="Trusted: TLC, harness/versions.py extraction of annotations and probe values from the schema files. version=0 (falsy) is not generated: not a MapServer version.",
+   ref="7/C09 and 13.5"),
+ "C11": dict(cat="model_checking", technique="TLA+ parse-loop model (spec/ParseLoop.tla): TLC-enumerated token soups and mutation behaviours replayed into the real parser; per-token traces from the iter_parse seam validated by TLC (spec/TraceParseLoop.tla)",
+   text="TLC enumerates every soup of <=3 (thorough 4-5) token classes over a 35-class alphabet at the bare root and after each root opener, random long soups, all single/double class-level mutations of canonical documents and index-level mutations applied to the 433 corpus files and generated documents, each with the allowed outcome set from the spec; the real Parser+MapfileToDict must end in a dict or a LarkError with usable line/column, and every block type must be accepted at the root. Retyping decisions recorded through the run-time seam are replayed by TLC (mechanism drift only).",
+   note="The timing clause is measured (24 repetitive shapes, CPU time over a x100 length range, 20x threshold), not decided by the model. Trusted: TLC, harness/parseloop.py lexeme pools and outcome classifier (cross-checked against TLC's OutcomeOK on sampled traces).",
+   ref="7/C11 and 13.5"),
+ "C15": dict(cat="model_checking", technique="TLA+ include-expansion machine (spec/Includes.tla) model-checked incl. liveness under weak fairness and six negative configs; TLC-simulated include graphs realised on disk and replayed through open/load/loads",
+   text="TLC checks on all bounded include graphs (<=1 back edge, <=1 missing target) that a finished expansion equals recursive substitution, the stack never exceeds 6, the depth error occurs iff some chain is longer than 5, resolution is against the root file's directory, and that the machine halts (leads-to under WF of the machine step; the only liveness property of the suite). Simulated graphs with the expected chunk sequence or permitted error class are realised as nested directories (relative/absolute, quoted/unquoted names, trailing comments, LF/CRLF) around a cut Reader document and loaded through open, load and loads from foreign working directories; the dict must equal that of the uncut text; expand_includes=False must keep and re-print the directives.",
+   note="Trusted: TLC, the cutting/laying-out code in harness/checks/c15.py. Paths with spaces are out of scope.",
+   ref="7/C15 and 13.5"),
+ "C17": dict(cat="model_checking", technique="TLA+ dict object model (spec/DictObj.tla refining spec/PlainOD.tla): exhaustive reachable graph, one implementation test per transition, plus simulated walks",
+   text="TLC explores every history of the listed operations up to the bound over keys {a,A,b,B,layers,LAYERS}, both factories, with a heap of value identities, checking KeysLowerUnique, FirstInsertionOrder, CopyLaws, AutoCreation and refinement of a plain ordered dict keyed by lower-cased keys; four broken spec variants must be rejected. Every transition of the graph (304k quick / 3.0M thorough) is printed once and replayed on the real class from the empty dict (result or exception class, items with identities, class and default_factory of copies); depth-40 simulated walks continue on copies.",
+   note="Trusted: TLC, the spec-id <-> Python-object bijection in harness/checks/c17.py. Non-string keys only probed for not crashing key folding.",
+   ref="7/C17 and 13.5"),
+ "C18": dict(cat="model_checking", technique="TLA+ update/find contract (spec/DictUtils.tla): laws model-checked on every enumerated case; each case with its expected result replayed through the real helpers on plain and Mapfile dicts",
+   text="TLC enumerates (d1, patch, overwrite) cases and (list, key, value) cases over bounded universes, checks the relational laws (untouched keys untouched, overwrite=False never replaces, None skips, extras appended, deletes delete, find operators leave their list unchanged) and prints each case with the expected result and post-state; the real update/find/findall/findunique/findkey are run on plain dicts, Mapfile dicts and Mapfile dicts with Mapfile patches and compared (typed ordered structure, result is d1, patch unchanged, found items are the very list items). Simulated patch histories are chained.",
+   note="Trusted: TLC, concretisation in harness/checks/c18.py. Unspecified corners (delete of an absent key, top-level __delete__, empty-list patches, keys differing only in case, falsy values) are not generated.",
+   ref="7/C18 and 13.5"),
+
  "C19": dict(cat="model_checking", technique="TLC evaluates the vocabulary rules (spec/VocabRules.tla) on constants extracted from the current tree; the finite slot product enumerated exhaustively by TLC (spec/SlotProbe.tla) is replayed through loads/dumps/loads/validate; create() x versions",
    text="Part 1: TLC evaluates twelve rules relating the grammar's block types, the tokens.py / parser.py tables and the schemas (block type <-> schema, singleton vs plural storage in every parent schema, object-list keys, repeated keywords, SYMBOL first-keyword table, printer assertion) and emits the offenders. Part 2: every point of type x (root | parent context) x keyword x value alternative x position (about 6.8k probes) is rendered with a schema-valid representative in MapServer's spelling and must load, print with the keyword found by the printer's schema lookup, re-load and validate. Part 3: create(type, version) for 19 types x 8 versions must print, re-load and validate apart from missing-required messages (every declared default valid for its own keyword). The product is enumerated exhaustively.",
    note="Trusted: TLC, harness/vocab.py extraction (stdlib only, own $ref resolver), ValidRenderer value selection, reference schema evaluation (representatives the reference itself rejects make no validate claim). Parent contexts are one level (every (parent, key) pair of the schemas).",
